@@ -359,7 +359,17 @@ public:
     bool robbed=(components==proxy.suv1.components && proxy.suv1.isinit);
     if(robbed)
       const_cast<SU_vector&>(proxy.suv1).isinit=false; //complete the theft
-    proxy.compute(detail::vector_wrapper<detail::AssignWrapper>{dim,components});
+    try{
+      proxy.compute(detail::vector_wrapper<detail::AssignWrapper>{dim,components});
+    }catch(...){
+      //this object will not be destroyed: give the storage back to the operand it was
+      //taken from, or release what was allocated for it
+      if(robbed)
+        const_cast<SU_vector&>(proxy.suv1).isinit=true;
+      else if(isinit)
+        deallocate_mem();
+      throw;
+    }
     if(robbed){ //the operand has been read; it must not keep referring to storage it no longer owns
       SU_vector& source=const_cast<SU_vector&>(proxy.suv1);
       source.dim=0;
